@@ -858,6 +858,12 @@ impl World {
                     if self.is(&["C09", "C03"]) {
                         viol!(self, "commit-succeeds", "commit-err", "commit failed without any storage fault: {}", e);
                     }
+                    if self.is(&["C08"]) {
+                        // C08 asks for a return, not for success: the history goes on from the state the
+                        // refused commit leaves behind (stopping here hid F20 for a long time)
+                        self.bump("probe.commit_refused_history_continues");
+                        return Ok(());
+                    }
                     return Err(Stop::Inconclusive(format!("commit failed without fault: {}", e)));
                 }
                 self.replicas[r].failed_commit_pending = true;
